@@ -22,7 +22,7 @@ impl BinarySerializer for Weekday {
 
 impl BinaryDeserializer for Weekday {
     fn deserialize(context: &mut DeserializationContext<'_>) -> Result<Self> {
-        Weekday::from_i8(i8::deserialize(context)? - 1).ok_or_else(|| {
+        Weekday::from_i64(i8::deserialize(context)? as i64 - 1).ok_or_else(|| {
             Error::DeserializationFailure("Failed to deserialize Weekday".to_string())
         })
     }
